@@ -470,6 +470,8 @@ class System:
                         p, comp._component_type.name
                     )
                 )
+        if len(pidx) > len(set(pidx)):
+            raise ValueError("parent paramenter contains duplicates!")
         # can only have one pmux
         if comp._component_type.name == "PMUX":
             for key in self._g.attrs["nodes"]:
